@@ -55,12 +55,11 @@
 //!   `sector:tol-needed-milli-px` in the distribution is the largest distance (in 1/1000 px) from
 //!   the nearer boundary ray of any pixel whose membership differs from "inside the sweep" — the
 //!   smallest tolerance with which the run would still pass.
-//!   * accuracy regression guard, class `accuracy-guard(stricter-than-C18-text):angular-tolerance-needed-above-0.5px`
-//!     (no `C18:` prefix: it is NOT a clause of the property, which allows 1.5 px): `PlaneSector::new` is
-//!     outside the model (its output is an INPUT of the model, through the hook), so the trigonometry is
-//!     constrained by this oracle alone, and with the text's 1.5 px a tenfold loss of accuracy would pass
-//!     every part of the check. The guard fails an op whose needed tolerance exceeds 0.5 px (the unchanged
-//!     tree needs 0.07 px in the f32 build, 0.16 px in the fixed_point build). Emitted only in the C18 check.
+//!   * accuracy observation, counter `obs:angular-tolerance-needed-above-0.5px` (NOT a failure class: the
+//!     property allows 1.5 px, and a check must not demand more than the text): counts ops whose needed
+//!     tolerance exceeds 0.5 px (the unchanged tree needs 0.07 px in the f32 build, 0.16 px in the
+//!     fixed_point build); together with `sector:tol-needed-milli-px` it makes a loss of trigonometric
+//!     accuracy visible in the evidence long before the property fails.
 //!
 //! Styled arcs and sectors (emitted only for C01, C02, C07; models `EG.Model.StyledArc`,
 //! `EG.Model.StyledSector`):
@@ -96,14 +95,11 @@ pub struct M;
 
 /// the tolerance of the property text: 1.5 px = 3.0 half-pixel units
 const TOL_2X: f64 = 3.0;
-/// Accuracy regression guard (NOT a clause of C18, stricter than its text): 0.5 px = 1.0 half-pixel
+/// Accuracy observation threshold (NOT a clause of C18, stricter than its text): 0.5 px = 1.0 half-pixel
 /// units. The current tree needs 0.07 px (f32) / 0.16 px (fixed_point).
 const GUARD_2X: f64 = 1.0;
-/// Class of the guard. Deliberately WITHOUT the `C18:` prefix of the property's own classes: a
-/// failure under this name says "the trigonometry got at least 3x (fixed_point) / 7x (f32) less
-/// accurate than it is today", not "C18 is violated" (C18 allows 1.5 px). It is emitted only in the C18
-/// check, whose trusted base it guards.
-const GUARD_CLASS: &str = "accuracy-guard(stricter-than-C18-text):angular-tolerance-needed-above-0.5px";
+/// Evidence counter of the guard (an observation, never a failure: C18 allows 1.5 px).
+const GUARD_CLASS: &str = "obs:angular-tolerance-needed-above-0.5px";
 
 fn mdeg(m: i32) -> Angle {
     Angle::from_degrees(m as f32 / 1000.0)
@@ -251,14 +247,9 @@ fn angular_oracle(
             format!("normals {:?} {:?} deviate by {:.3} (of 1024) from the exact ones", l, r, eps)
         });
     }
-    if ctx.pid == "C18" {
-        ctx.expect(needed <= GUARD_2X, GUARD_CLASS, || {
-            format!(
-                "{} d={} start={} sweep={} (milli-degrees): a pixel {:.3} px from the nearer boundary ray is on the wrong side of the sweep; \
-                 the property allows 1.5 px, the unchanged tree needs at most 0.07 px (f32) / 0.16 px (fixed_point)",
-                kind, d, start, sweep, needed / 2.0
-            )
-        });
+    if ctx.pid == "C18" && needed > GUARD_2X {
+        // observation only (evidence counter): the property allows 1.5 px, so this is no failure
+        ctx.count(GUARD_CLASS);
     }
     ctx.expect(outside.is_none(), &class_a, || {
         let (p, b) = outside.unwrap();
